@@ -431,8 +431,29 @@ def check_features(ctx, fi, block, total):
            'solve %s.T v = 1 with one entry of the ones vector per column of %s (per cell); got operator `%s`, target `%s`%s'
            % (Q, Q, U(op), U(rhs), dtype_note), construct='solve in ' + where)
 
+    LSMR_FIELDS = ('x', 'istop', 'itn', 'normr', 'normar', 'norma', 'conda', 'normx')
+    call_text = T(solve.value)
+    is_lsmr = U(solve.value.func).split('.')[-1] == 'lsmr'
+
     def with_v(e):
-        return Replace(lambda n: name('__v__') if isinstance(n, ast.Subscript) and T(n) == solve_text else None).visit(clone(e))
+        def fn(n):
+            if isinstance(n, ast.Subscript) and T(n) == solve_text:
+                return name('__v__')
+            # lsmr also returns ||x|| as the last of its eight results: normx ** 2 is <v, v>
+            if is_lsmr and isinstance(n, ast.BinOp) and isinstance(n.op, ast.Pow) and isinstance(n.right, ast.Constant) and n.right.value == 2 \
+                    and isinstance(n.left, ast.Subscript) and T(n.left.value) == call_text and isinstance(n.left.slice, ast.Constant) \
+                    and n.left.slice.value in (7, -1):
+                return ast.parse('np.dot(__v__, __v__)', mode='eval').body
+            return None
+        return Replace(fn).visit(clone(e))
+
+    def other_fields(e):
+        out = []
+        for n in ast.walk(e):
+            if is_lsmr and isinstance(n, ast.Subscript) and T(n.value) == call_text and isinstance(n.slice, ast.Constant) \
+                    and isinstance(n.slice.value, int) and n.slice.value not in (0, 7, -1) and -8 <= n.slice.value < 8:
+                out.append(LSMR_FIELDS[n.slice.value])
+        return out
 
     # ---- accumulators: start empty, grow by append only, under exactly the row-space test -------------------------
     accs = {}
@@ -500,6 +521,10 @@ def check_features(ctx, fi, block, total):
             is_var = noise in names_in(c) or got.eq(want_var)
             if is_var and '__var__' not in roles.values():
                 roles[(acc, idx)] = '__var__'
+                extra_ = other_fields(evs[0].value)
+                if extra_:
+                    ctx.note('%s: the recorded variance reads `%s` of the solver\'s result (lsmr returns x, istop, itn, normr, normar, norma, conda, normx): '
+                             'not the norm of the solution' % (where, ', '.join(extra_)))
                 ctx.ob('variance-form', fi, evs[0].stmt, got.eq(want_var),
                        'variance of the linear estimate v.y is noise^2 * <v, v>: expected %r, source %r' % (want_var, got),
                        construct='variance recorded in ' + where)
